@@ -133,7 +133,11 @@ def parse_base(base):
 def le_tables(files):
     from prometheus_client.utils import floatToGoString
     ptab, ftab = {}, {}
-    for _base, entries in files:
+    for base, entries in files:
+        if parse_base(base)[0] != 'histogram':
+            # float() is applied to an `le` label of histogram samples only (multiprocess.py and model/Multiproc.v
+            # accumulate): on every other type `le` is an ordinary user label whose value need not be a number
+            continue
         for kjson, _v, _ts in entries:
             for n, v in decode_key(kjson)[2]:
                 if n == 'le' and v not in ptab:
